@@ -22,6 +22,8 @@ const (
 	kStr            // string content
 	kQClose         // closing quote
 	kComment        // comment content
+	kIOpen          // "#{" inside a double-quoted string
+	kIClose         // the "}" that ends an interpolation
 )
 
 type stok struct {
@@ -31,7 +33,9 @@ type stok struct {
 	in   string // "", "{{", "{%", "{#": which delimiter pair the token is inside
 }
 
-var spellMultiOps = []string{"**", "//", "<=", ">=", "==", "!=", "..", "b-and", "b-or", "b-xor", "not in", "is not", "starts with", "ends with"}
+// the words of "not in", "is not", "starts with", "ends with" are separate tokens: the whitespace between them is
+// whitespace between tokens like any other
+var spellMultiOps = []string{"**", "//", "<=", ">=", "==", "!=", "..", "b-and", "b-or", "b-xor"}
 
 func stokens(src string) []stok {
 	var toks []stok
@@ -43,6 +47,7 @@ func stokens(src string) []stok {
 	i := 0
 	in := ""
 	closer := ""
+	braces := 0 // hashes open inside the current delimiter pair
 	for i < len(src) {
 		if in == "" {
 			j := i
@@ -60,9 +65,17 @@ func stokens(src string) []stok {
 				n = 3
 			}
 			add(src[i:i+n], i, kOpen, d)
+			braces = 0
 			in = d
 			closer = map[string]string{"{{": "}}", "{%": "%}", "{#": "#}"}[d]
 			i += n
+			continue
+		}
+		if braces > 0 && src[i] == '}' && in != "{#" {
+			// a hash is still open: this brace closes it ("{{ {'a': {'b': 1}}.a }}")
+			add("}", i, kPunct, in)
+			braces--
+			i++
 			continue
 		}
 		if strings.HasPrefix(src[i:], closer) {
@@ -95,6 +108,37 @@ func stokens(src string) []stok {
 			}
 			add(src[i:j], i, kWS, in)
 			i = j
+		case c == '"' && dqInterpolated(src[i:]) > 0:
+			// a double-quoted string with interpolations: quote, text, "#{", the tokens of the expression, "}", text, ..., quote
+			end := i + dqInterpolated(src[i:]) // index of the closing quote
+			add(src[i:i+1], i, kQOpen, in)
+			j := i + 1
+			textStart := j
+			for j < end {
+				if src[j] == '\\' {
+					j += 2
+					continue
+				}
+				if strings.HasPrefix(src[j:], "#{") {
+					add(src[textStart:j], textStart, kStr, in)
+					add("#{", j, kIOpen, in)
+					k := interpEnd(src, j+2, end)
+					for _, t := range stokens("{{" + src[j+2:k] + "}}") {
+						if t.kind == kOpen || t.kind == kClose {
+							continue
+						}
+						add(t.text, t.off-2+j+2, t.kind, in)
+					}
+					add("}", k, kIClose, in)
+					j = k + 1
+					textStart = j
+					continue
+				}
+				j++
+			}
+			add(src[textStart:end], textStart, kStr, in)
+			add(src[end:end+1], end, kQClose, in)
+			i = end + 1
 		case c == '"' || c == '\'':
 			j := strings.IndexByte(src[i+1:], c)
 			if j < 0 {
@@ -152,11 +196,74 @@ func stokens(src string) []stok {
 			if strings.IndexByte(",()[]{}:|.?=", c) >= 0 {
 				kind = kPunct
 			}
+			if c == '{' {
+				braces++
+			} else if c == '}' && braces > 0 {
+				braces--
+			}
 			add(src[i:i+1], i, kind, in)
 			i++
 		}
 	}
 	return toks
+}
+
+// dqInterpolated: s starts with a double quote. If the string literal is closed and contains an interpolation, the
+// offset of its closing quote is returned (interpolations may contain quotes themselves), otherwise 0.
+func dqInterpolated(s string) int {
+	has := false
+	j := 1
+	for j < len(s) {
+		switch {
+		case s[j] == '\\':
+			j += 2
+			continue
+		case s[j] == '"':
+			if has {
+				return j
+			}
+			return 0
+		case strings.HasPrefix(s[j:], "#{"):
+			k := interpEnd(s, j+2, len(s))
+			if k >= len(s) {
+				return 0
+			}
+			has = true
+			j = k + 1
+			continue
+		}
+		j++
+	}
+	return 0
+}
+
+// interpEnd returns the index of the "}" that closes the interpolation whose expression starts at from
+// (brackets and quoted strings inside it are skipped), or limit if there is none.
+func interpEnd(s string, from, limit int) int {
+	depth := 0
+	for j := from; j < limit && j < len(s); j++ {
+		switch s[j] {
+		case '(', '[', '{':
+			depth++
+		case ')', ']':
+			depth--
+		case '}':
+			if depth <= 0 {
+				return j
+			}
+			depth--
+		case '\'', '"':
+			q := s[j]
+			j++
+			for j < limit && j < len(s) && s[j] != q {
+				if s[j] == '\\' {
+					j++
+				}
+				j++
+			}
+		}
+	}
+	return limit
 }
 
 func isDigits(s string) bool {
@@ -187,6 +294,12 @@ func glueable(a, b stok) bool {
 	}
 	wordish := func(t stok) bool { return t.kind == kWord || t.kind == kQOpen || t.kind == kQClose }
 	switch {
+	case a.kind == kIOpen:
+		return b.kind == kWord || b.kind == kQOpen || (b.kind == kPunct && (b.text == "(" || b.text == "["))
+	case b.kind == kIClose:
+		return a.kind == kWord || a.kind == kQClose || (a.kind == kPunct && (a.text == ")" || a.text == "]"))
+	case a.kind == kIClose || b.kind == kIOpen:
+		return false
 	case a.kind == kOpen:
 		if a.in == "{#" {
 			return false
@@ -196,7 +309,9 @@ func glueable(a, b stok) bool {
 		if b.in == "{#" {
 			return false
 		}
-		return a.kind == kWord || a.kind == kQClose || (a.kind == kPunct && (a.text == ")" || a.text == "]"))
+		return a.kind == kWord || a.kind == kQClose || (a.kind == kPunct && (a.text == ")" || a.text == "]" || (a.text == "}" && b.in == "{{")))
+	case a.kind == kPunct && b.kind == kPunct && a.text == "}" && (b.text == "}" || b.text == "]" || b.text == ")" || b.text == ","):
+		return true // a closing brace cannot merge with what follows, not even with another one ("{'a': {'b': 1}}")
 	case simpleP(a) && (wordish(b) || simpleP(b)):
 		// two punctuation characters would be lexed as one run by a punctuation-run lexer: keep apart
 		// unless one of them is a bracket
@@ -334,7 +449,7 @@ func spellSites(toks []stok, small bool) []site {
 		}
 		// zero-width boundary before this token (inside delimiters, previous token not whitespace)
 		if i > 0 && t.kind != kWS && t.kind != kOpen && toks[i-1].kind != kClose && toks[i-1].kind != kWS && toks[i-1].in == t.in &&
-			t.kind != kStr && t.kind != kQClose && toks[i-1].kind != kQOpen && toks[i-1].kind != kStr {
+			t.kind != kStr && t.kind != kQClose && toks[i-1].kind != kQOpen && toks[i-1].kind != kStr && t.kind != kIOpen && toks[i-1].kind != kIClose {
 			a := []string{" ", "\n"}
 			if small {
 				a = []string{" "}
@@ -365,7 +480,7 @@ func spellSites(toks []stok, small bool) []site {
 
 func isOperatorWord(w string) bool {
 	switch w {
-	case "in", "not in", "is", "is not", "and", "or", "not", "matches", "starts with", "ends with", "b-and", "b-or", "b-xor", "if", "with", "only", "as", "import", "set", "do", "for", "elseif", "include", "extends", "embed", "use", "from", "filter":
+	case "in", "not in", "is", "is not", "and", "or", "not", "matches", "starts with", "ends with", "starts", "ends", "b-and", "b-or", "b-xor", "if", "with", "only", "as", "import", "set", "do", "for", "elseif", "include", "extends", "embed", "use", "from", "filter":
 		return true
 	}
 	return false
